@@ -193,19 +193,23 @@ class Workspace(AbstractContextManager):
         # a handle shared with another session of this process reports that
         # session's mode: the mode asked for this workspace counts as well
         writable = self.geoh5.mode in ["r+", "a"] and self._opened_as != "r"
-        if writable:
-            # entities removed from their parent and dropped since the last listing:
-            # delete their nodes before the file is closed
-            self.remove_none_referents(self._data, "Data")
-            self.remove_none_referents(self._objects, "Objects")
+        try:
+            if writable:
+                # entities removed from their parent and dropped since the last
+                # listing: delete their nodes before the file is closed
+                self.remove_none_referents(self._data, "Data")
+                self.remove_none_referents(self._objects, "Objects")
 
-            for entity in self.groups:
-                if isinstance(entity, Concatenator) and self.repack:
-                    self.update_attribute(entity, "concatenated_attributes")
+                for entity in self.groups:
+                    if isinstance(entity, Concatenator) and self.repack:
+                        self.update_attribute(entity, "concatenated_attributes")
 
-            self._io_call(H5Writer.save_entity, self.root, add_children=True, mode="r+")
-
-        self.geoh5.close()
+                self._io_call(
+                    H5Writer.save_entity, self.root, add_children=True, mode="r+"
+                )
+        finally:
+            # release the handle even if the final save fails
+            self.geoh5.close()
 
         if (
             self.repack
